@@ -203,6 +203,21 @@ func vAssertScanValue(lit []byte, mant uint64, exp int, neg bool, trunc bool, id
 		return
 	}
 	if exp > 5000 || exp < -5000 {
+		// possibly a capped exponent: the tiers decline it; the true value must be out of their range on the same side
+		ten348 := new(big.Rat).SetInt(new(big.Int).Exp(big.NewInt(10), big.NewInt(348), nil))
+		ok := neg == vneg
+		if exp > 0 {
+			lim := new(big.Rat).SetInt(new(big.Int).SetUint64(mant))
+			lim.Mul(lim, ten348)
+			ok = ok && (mant == 0 || x.Cmp(lim) >= 0)
+		} else {
+			lim := new(big.Rat).SetInt(new(big.Int).Add(new(big.Int).SetUint64(mant), big.NewInt(1)))
+			lim.Quo(lim, ten348)
+			ok = ok && x.Cmp(lim) < 0
+		}
+		if !ok {
+			vFailures = append(vFailures, id)
+		}
 		return
 	}
 	scale := new(big.Rat).SetInt(new(big.Int).Exp(big.NewInt(10), big.NewInt(int64(abs(exp))), nil))
